@@ -130,6 +130,15 @@ func astFamily(f func(sc.Case)) {
 		gen.Ref("@A"), gen.Ref("@A", "@B"), gen.Ref("@A").With(gen.R("nullable", "true")), gen.Ref("@B", "@A").With(gen.R("nullable", "true")),
 		gen.Ref("@A").With(gen.RL("or", lit(`"string"`), lit(`"integer"`))),
 		gen.Ref("@B").With(gen.RL("or", lit(`"boolean"`), lit(`"null"`)), gen.R("nullable", "true")),
+		// bare type names in or rules, on examples of every JSON kind: the items are the names as written
+		gen.Int("12").With(gen.RL("or", lit(`"date"`), lit(`"integer"`))),
+		gen.Int("12").With(gen.RL("or", lit(`"any"`), lit(`"string"`))),
+		gen.Float("1.5").With(gen.RL("or", lit(`"uuid"`), lit(`"float"`), lit(`"datetime"`))),
+		gen.Bool("true").With(gen.RL("or", lit(`"email"`), lit(`"uri"`), lit(`"boolean"`))),
+		gen.Null().With(gen.RL("or", lit(`"null"`), lit(`"date"`), lit(`"any"`))),
+		gen.Arr().With(gen.RL("or", lit(`"array"`), lit(`"any"`))),
+		gen.Obj().With(gen.RL("or", lit(`"email"`), lit(`"object"`))),
+		gen.Str(`"s"`).With(gen.RL("or", lit(`"string"`), lit(`"integer"`), lit(`"float"`), lit(`"boolean"`), lit(`"null"`), lit(`"object"`), lit(`"array"`), lit(`"any"`), lit(`"date"`), lit(`"datetime"`), lit(`"email"`), lit(`"uri"`), lit(`"uuid"`))),
 		gen.Obj().With(gen.R("allOf", `"@O"`)),
 		gen.Obj(gen.P("own", gen.Int("1"))).With(gen.RL("allOf", lit(`"@O"`), lit(`"@P"`)), gen.R("additionalProperties", "true")),
 		gen.Obj().With(gen.R("additionalProperties", `"@A"`)),
